@@ -124,6 +124,9 @@ func oracle(h *Hist, out Outcome, refs *refCache) (fails []oracleFail) {
 		} else if o.Latest != op.Head {
 			add("latest-not-head-after-success", "%s succeeded, latest-sync is %d", where, o.Latest)
 		}
+		if !failed && h.Cfg.Seg > 0 && op.HookFail >= 0 && op.HookFail < len(o.Hooks) {
+			add("hook-failure-ignored", "%s: segmented sync (segment depth %d): hook call %d called FailSync, yet the sync succeeded", where, h.Cfg.Seg, op.HookFail)
+		}
 		switch op.Mode {
 		case "explicit":
 			if failed && len(o.Events) != 0 {
